@@ -37,8 +37,8 @@ class C02(Prop):
         "cipher-private buffers. oracle: Python value and dotted key equal the model's denotation (type-exact, NaN by isnan, -0.0 by sign). "
         "non-trivial = at least one non-default value compared; distinct = abstract trace + multiset of (type, content length) delivered"
     )
-    quick_runs = 2500
-    thorough_runs = 50000
+    quick_runs = 15000
+    thorough_runs = 250000
 
     def families(self, tier):
         return [("scripted", 3), ("walk", 2)]
